@@ -115,13 +115,13 @@ class Result:
                                          detail="construct outside the analysed subset was needed by this rule (fail closed)"))
 
 
-def arithmetic(res, I, entry=None):
+def arithmetic(res, I, entry=None, upto=None):
     """A rule reasons about the mathematical value of the integer expressions it interprets.  Where the code may overflow
     (it then panics in a debug build and wraps in a release build) that value is not the one computed, so an undischarged
     overflow / division obligation met while interpreting an entry point on a fully general input is reported under the
     rule's own property as well."""
     seen = set()
-    for o in I.obligations:
+    for o in (I.obligations if upto is None else I.obligations[:upto]):
         if o.ok or not (o.kind.startswith("overflow") or o.kind == "div-zero"):
             continue
         k = (o.kind, o.fn, str(o.goal))
